@@ -156,6 +156,7 @@ struct Sys {
     /// the token's own address is part of the observed universe (driver runs)
     selfacct: bool,
     min_temp: u32,
+    base: u32,
 }
 
 macro_rules! token_call {
@@ -176,8 +177,10 @@ impl Sys {
     /// `selfacct` runs (the random driver's) alternate between a minimum temporary-entry lifetime of 1 (an allowance
     /// entry lives exactly as long as asked) and 16 (the network's default: an entry outlives a short approval, so
     /// only the explicit expiry comparison protects)
-    fn new(flname: &str, regime: &str, accts: &[&str], cap: i64, thin: bool, selfacct: bool, min_temp: u32) -> Sys {
-        let e = new_env(&LedgerCfg { seq: NOW0, min_temp, min_persistent: 1_000_000, max_ttl: MAX_TTL.max(min_temp + 4) });
+    /// `base`: ledger sequence the run starts from (minus NOW0); ledgers and expiries are logged relative to it.  Runs
+    /// with a high base work next to i32::MAX / u32::MAX, where expiry arithmetic in a narrower or signed type breaks.
+    fn new(flname: &str, regime: &str, accts: &[&str], cap: i64, thin: bool, selfacct: bool, min_temp: u32, base: u32) -> Sys {
+        let e = new_env(&LedgerCfg { seq: base + NOW0, min_temp, min_persistent: 1_000_000, max_ttl: MAX_TTL.max(min_temp + 4) });
         let mut all: Vec<&str> = accts.to_vec();
         all.push("m");
         let names = Names::new(&e, &all);
@@ -205,7 +208,7 @@ impl Sys {
             // "m": the list manager is an account like any other (it can be listed, hold and receive tokens)
             accts.push("m".to_string());
         }
-        Sys { e, names, accts, c, fl, flname: flname.to_string(), scale, cap, thin, selfacct, min_temp }
+        Sys { e, names, accts, c, fl, flname: flname.to_string(), scale, cap, thin, selfacct, min_temp, base }
     }
 
     fn units(&self, v: i128) -> Value {
@@ -297,7 +300,7 @@ impl Sys {
             }
             "approve" => {
                 let (o, sp) = (addr("from"), addr("sp"));
-                let until = n(op, "until").max(0) as u32;
+                let until = if n(op, "until") > 0 { (self.base as u64 + n(op, "until") as u64).min(u32::MAX as u64) as u32 } else { 0 };
                 set_auth_same(e, &who, &Inv::new(&c, "approve", args(e, (o.clone(), sp.clone(), amt, until))));
                 token_call!(self, cl => res_of(&cl.try_approve(&o, &sp, &amt, &until)))
             }
@@ -379,11 +382,11 @@ impl Sys {
             k => panic!("op {k}"),
         };
         let evs = if kind == "advance" { json!([]) } else { self.token_events() };
-        Some(json!({"op": op, "now": seq(e), "res": r.0, "err": r.1, "obs": self.obs(), "evs": evs}))
+        Some(json!({"op": op, "now": seq(e) - self.base, "res": r.0, "err": r.1, "obs": self.obs(), "evs": evs}))
     }
 
     fn reset_event(&self, regime: &str) -> Value {
-        json!({"op": {"op": "reset", "flavour": self.flname, "regime": regime, "cap": self.cap, "owner": "a", "impl": if self.thin { "thin" } else { "example" }, "selfacct": self.selfacct, "min_temp": self.min_temp,
+        json!({"op": {"op": "reset", "flavour": self.flname, "regime": regime, "cap": self.cap, "owner": "a", "impl": if self.thin { "thin" } else { "example" }, "selfacct": self.selfacct, "min_temp": self.min_temp, "base": self.base.to_string(),
                       "from": "none", "to": "none", "sp": "none", "amt": 0, "until": 0, "auth": [], "k": 0},
                "now": NOW0, "res": "ok", "err": 0, "obs": self.obs(), "evs": []})
     }
@@ -404,7 +407,8 @@ fn main() {
                 let accts4 = ["a", "b", "c", "d"];
                 let accts3 = ["a", "b", "c"];
                 let min_temp = b.cfg.get("min_temp").and_then(|v| v.as_u64()).unwrap_or(1) as u32;
-                let mut sys = Sys::new(&fl, &regime, if selfacct { &accts4 } else { &accts3 }, cap, thin, selfacct, min_temp);
+                let base: u32 = b.cfg.get("base").and_then(|v| v.as_str()).and_then(|x| x.parse().ok()).unwrap_or(0);
+                let mut sys = Sys::new(&fl, &regime, if selfacct { &accts4 } else { &accts3 }, cap, thin, selfacct, min_temp, base);
                 t.reset(sys.reset_event(&regime));
                 for op in &b.ops {
                     if let Some(ev) = sys.step(op) {
@@ -427,7 +431,9 @@ fn main() {
                 };
                 let regime = if (run / FLAVOURS.len()) % 3 == 2 { "O" } else { "S" };
                 let cap = if regime == "O" { 6 } else { *pick(&mut r, &[3i64, 5, 9]) };
-                let mut sys = Sys::new(fl, regime, &accts, cap, thin, true, if (run / FLAVOURS.len()) % 2 == 1 { 16 } else { 1 });
+                // every fifth block of runs: next to i32::MAX (crossing it), or at 3 000 000 000
+                let base: u32 = if (run / FLAVOURS.len()) % 5 == 4 { *pick(&mut r, &[i32::MAX as u32 - 30, i32::MAX as u32 - 12, 3_000_000_000u32]) } else { 0 };
+                let mut sys = Sys::new(fl, regime, &accts, cap, thin, true, if (run / FLAVOURS.len()) % 2 == 1 { 16 } else { 1 }, base);
                 // allowances that lapsed by the passing of time since the previous call: (owner, spender, amount)
                 let mut lapsed: Vec<(&str, &str, i64)> = vec![];
                 t.reset(sys.reset_event(regime));
@@ -436,7 +442,7 @@ fn main() {
                 let mut bals: std::collections::BTreeMap<String, i64> = Default::default();
                 let mut pairs: Vec<(&str, &str, i64)> = vec![]; // (owner, spender, live allowance)
                 for _ in 0..len {
-                    let now = seq(&sys.e) as i64;
+                    let now = (seq(&sys.e) - sys.base) as i64;
                     let k = if r.gen_ratio(1, 25) { 3000 } else { *pick(&mut r, &[0i64, 0, 0, 0, 1, 1, 2, 5]) };
                     let from = if !holders.is_empty() && r.gen_bool(0.7) { *pick(&mut r, &holders) } else { *pick(&mut r, &accts) };
                     let to = if r.gen_ratio(1, 12) { "t" } else { *pick(&mut r, &accts) };
